@@ -213,12 +213,12 @@ def Vmap(P, n, in_axes=0, args=None):
     """in_axes: int/None/tuple per arg (as the public API)."""
     axes = in_axes if isinstance(in_axes, tuple) else (in_axes,) * len(P.args)
     if args is None:
-        args = tuple(jnp.stack([a + 0.25 * i if jnp.issubdtype(jnp.asarray(a).dtype, jnp.floating) else a for i in range(n)]) if ax == 0 else a
+        args = tuple(jnp.stack([a + 0.25 * i if jnp.issubdtype(jnp.asarray(a).dtype, jnp.floating) else a for i in range(n)], axis=ax) if ax is not None else a
                      for a, ax in zip(P.args, axes))
     gf = P.gf.vmap(in_axes=in_axes if isinstance(in_axes, tuple) else in_axes)
 
     def slice_args(a, i):
-        return tuple(jax.tree_util.tree_map(lambda x: x[i], x_) if ax == 0 else x_ for x_, ax in zip(a, axes))
+        return tuple(jax.tree_util.tree_map(lambda x, ax=ax: jnp.take(x, i, axis=ax), x_) if ax is not None else x_ for x_, ax in zip(a, axes))
 
     def ref(a, vals):
         outs = [P.ref(slice_args(a, i), [v[i] for v in vals]) for i in range(n)]
@@ -233,15 +233,17 @@ def Vmap(P, n, in_axes=0, args=None):
     def assume(*sa):
         out = []
         for i in range(n):
-            out += P.assume(*[_sym_index(x, i) if ax == 0 else x for x, ax in zip(sa, axes)])
+            out += P.assume(*[_sym_index(x, i, ax) if ax is not None else x for x, ax in zip(sa, axes)])
         return out
 
     return Prog(f"vmap{n}({P.name})", gf, args, _stack_sites(P, n), ref, assume,
                 frozenset({"update", "project", "index"}), P.depth + 1, "vmap", {"inner": P, "n": n, "axes": axes})
 
 
-def _sym_index(x, i):
-    return jax.tree_util.tree_map(lambda a: _box(a[i]), x)
+def _sym_index(x, i, axis=0):
+    import numpy as np
+
+    return jax.tree_util.tree_map(lambda a: _box(np.take(a, i, axis=axis)), x)
 
 
 def _box(r):
@@ -508,6 +510,12 @@ def inner_sigma():
                   assume=lambda *sa: [sa[1][()] > 0])
 
 
+def inner_vec():
+    """(x: f32[2]) -> a ~ normal(x[0] + 2 x[1], 1); return a + x[0]   (for vmap over a non-leading axis)"""
+    N = Dist("normal")
+    return Static("innerV", [("a", N, lambda a, r: (a[0][0] + 2.0 * a[0][1], _f(1.0)))], lambda a, r: r[0] + a[0][0], (jnp.asarray([0.4, -0.3], jnp.float32),))
+
+
 def catalogue(tier="quick"):
     """Name -> thunk; thunks build the Prog lazily (tracing happens later)."""
     N = lambda: Dist("normal")  # noqa: E731
@@ -520,6 +528,7 @@ def catalogue(tier="quick"):
         "vmap(inner1)": lambda: Vmap(inner1(), 3),
         "vmap(inner2)": lambda: Vmap(inner2(), 2),
         "vmap(innerS;0,None)": lambda: Vmap(inner_sigma(), 3, in_axes=(0, None)),
+        "vmap(innerV;axis1)": lambda: Vmap(inner_vec(), 2, in_axes=(1,)),
         "repeat(inner1)": lambda: Repeat(inner1(), 3),
         "scan(walk)": lambda: Scan(k_normal_walk(), 3),
         "scan(kern2)": lambda: Scan(k_two_site(), 3),
